@@ -685,7 +685,7 @@ func TestC10(t *testing.T) {
 	rec.SetJournalAll(true)
 	rec.Assume("only valid configurations (invalid ones are C20's business); no IPv6 zones; IPv4-mapped IPv6 spellings are not generated",
 		"row count of aggregate-only reads and behaviour with WHERE are not asserted (property is silent)")
-	runProp(t, rec, "ring", perShard(evid.Pick(3000, 60000)), func(rt *rapid.T) c10Case {
+	runProp(t, rec, "ring", perShard(evid.Pick(8000, 200000)), func(rt *rapid.T) c10Case {
 		c := c10Gen(rt)
 		labels := []string{fmt.Sprintf("nodes:%d", len(c.Nodes)), fmt.Sprintf("self-in-list:%v", c.SelfInList), fmt.Sprintf("explicit-tokens:%v", c.explicitTokens()), map[bool]string{true: "backend:dse", false: "backend:oss"}[c.DSE != ""]}
 		nonStar := false
